@@ -228,4 +228,118 @@ theorem float32_trichotomy (b : BitVec 32) : isFinite32 b = true ∨ isInf32 b =
   simp only [isFinite32, isInf32, isNaN32]
   by_cases h : exp32 b = 255 <;> by_cases h2 : man32 b = 0 <;> simp [h, h2]
 
+/-! ## the conversions are coherent: narrowing a widened float32 gives it back -/
+
+theorem toNat_parts32 (b : BitVec 32) : b.toNat = sign32 b * 2 ^ 31 + exp32 b * 2 ^ 23 + man32 b := by
+  have := b.isLt
+  simp only [sign32, exp32, man32]; omega
+
+theorem narrow_widen (b : BitVec 32) (h : isFinite32 b = true) : narrow (widen b) = b := by
+  obtain ⟨he, hm, hs⟩ := parts32 b
+  have hb := toNat_parts32 b
+  simp only [isFinite32, bne_iff_ne, ne_eq] at h
+  apply BitVec.eq_of_toNat_eq
+  rw [hb]
+  simp only [narrow, exp64, man64, sign64, widen, BitVec.toNat_ofNat]
+  generalize exp32 b = e at *; generalize man32 b = m at *; generalize sign32 b = s at *
+  rw [if_neg h]
+  by_cases h0 : e = 0
+  · subst h0
+    rw [if_pos rfl]
+    by_cases hm0 : m = 0
+    · subst hm0; simp only [if_true]
+      have : s = 0 ∨ s = 1 := by omega
+      rcases this with rfl | rfl <;> decide
+    · rw [if_neg hm0]
+      have hk1 := Nat.log2_self_le hm0
+      have hk2 := @Nat.lt_log2_self m
+      have hk : Nat.log2 m < 23 := (Nat.log2_lt hm0).2 hm
+      generalize Nat.log2 m = k at *
+      -- p = 2^(52-k), 2^52 = 2^k * p, m = 2^k + j
+      have hP : 2 ^ 52 = 2 ^ k * 2 ^ (52 - k) := by rw [← Nat.pow_add]; congr 1; omega
+      have hpp : 0 < 2 ^ (52 - k) := Nat.two_pow_pos _
+      generalize hp : 2 ^ (52 - k) = p at *
+      have hlo : 2 ^ 52 ≤ m * p := by rw [hP]; exact Nat.mul_le_mul_right p hk1
+      have hhi : m * p < 2 * 2 ^ 52 := by
+        rw [hP, ← Nat.mul_assoc, ← Nat.pow_succ']; exact Nat.mul_lt_mul_of_pos_right hk2 hpp
+      obtain ⟨jp, hj⟩ : ∃ jp, m * p = 2 ^ 52 + jp := ⟨m * p - 2 ^ 52, by omega⟩
+      have hjp : jp < 2 ^ 52 := by omega
+      have hman : m * p % 2 ^ 52 = jp := by omega
+      rw [hman]
+      have hE : (s * 2 ^ 63 + (874 + k) * 2 ^ 52 + jp) % 2 ^ 64 / 2 ^ 52 % 2048 = 874 + k := by omega
+      have hM : (s * 2 ^ 63 + (874 + k) * 2 ^ 52 + jp) % 2 ^ 64 % 2 ^ 52 = jp := by omega
+      have hS : (s * 2 ^ 63 + (874 + k) * 2 ^ 52 + jp) % 2 ^ 64 / 2 ^ 63 = s := by omega
+      have hMM : 2 ^ 52 + jp = m * p := by omega
+      have hsh : 29 + (897 - (874 + k)) = 52 - k := by omega
+      have hr : rne (m * p) (52 - k) = m := by
+        simp only [rne, hp, Nat.mul_div_cancel _ hpp, Nat.mul_mod_left]
+        have : 0 < 2 ^ (52 - k - 1) := Nat.two_pow_pos _
+        rw [if_neg (by omega)]
+      simp only [hE, hM, hS, hMM, hsh, hr]
+      rw [if_neg (by omega : ¬ 874 + k = 2047), if_neg (by omega : ¬ 874 + k = 0)]
+      simp only [if_neg (by omega : ¬ 897 ≤ 874 + k), if_pos (by omega : 897 - (874 + k) ≤ 25)]
+      rw [if_neg (by omega : ¬ 255 * 2 ^ 23 ≤ m)]
+      omega
+  · rw [if_neg h0]
+    have hE : (s * 2 ^ 63 + (e + 896) * 2 ^ 52 + m * 2 ^ 29) % 2 ^ 64 / 2 ^ 52 % 2048 = e + 896 := by omega
+    have hM : (s * 2 ^ 63 + (e + 896) * 2 ^ 52 + m * 2 ^ 29) % 2 ^ 64 % 2 ^ 52 = m * 2 ^ 29 := by omega
+    have hS : (s * 2 ^ 63 + (e + 896) * 2 ^ 52 + m * 2 ^ 29) % 2 ^ 64 / 2 ^ 63 = s := by omega
+    have hr : rne (2 ^ 52 + m * 2 ^ 29) 29 = 2 ^ 23 + m := by
+      have q : (2 ^ 52 + m * 2 ^ 29) / 2 ^ 29 = 2 ^ 23 + m := by omega
+      have r : (2 ^ 52 + m * 2 ^ 29) % 2 ^ 29 = 0 := by omega
+      simp only [rne, q, r]
+      rw [if_neg (by omega)]
+    simp only [hE, hM, hS, hr]
+    rw [if_neg (by omega : ¬ e + 896 = 2047), if_neg (by omega : ¬ e + 896 = 0)]
+    simp only [if_pos (by omega : 897 ≤ e + 896)]
+    rw [if_neg (by omega : ¬ 255 * 2 ^ 23 ≤ (e + 896 - 897) * 2 ^ 23 + (2 ^ 23 + m))]
+    omega
+
+/-! ## enum look-up -/
+
+theorem find_key {α β : Type} [DecidableEq β] (key : α → β) (l : List α) (a : α) (hm : a ∈ l)
+    (hd : l.Pairwise (fun x y => key x ≠ key y)) : l.find? (fun x => key x = key a) = some a := by
+  induction l with
+  | nil => cases hm
+  | cons x xs ih =>
+    rw [List.find?_cons]
+    by_cases hx : key x = key a
+    · simp only [hx, decide_true]
+      rcases List.mem_cons.1 hm with rfl | h
+      · rfl
+      · exact absurd hx ((List.pairwise_cons.1 hd).1 a h)
+    · simp only [hx, decide_false]
+      rcases List.mem_cons.1 hm with rfl | h
+      · exact absurd rfl hx
+      · exact ih h (List.pairwise_cons.1 hd).2
+
+
+/-! ## a codec that satisfies the laws (non-vacuity of the float hypotheses): decimal text of the bit pattern -/
+
+def exampleCodec : FloatCodec :=
+  { format32 := fun f => formatUint f.toNat
+    format64 := fun f => formatUint f.toNat
+    parse64 := fun s => (parseUint 64 s).map (BitVec.ofNat 64)
+    parse32 := fun s => (parseUint 64 s).map fun n => narrow (BitVec.ofNat 64 n) }
+
+theorem formatUint_not_special (n : Nat) : formatUint n ∉ specials := by
+  obtain ⟨c, t, e, hc⟩ := formatUint_head n
+  intro hmem
+  simp only [specials, List.mem_cons, List.not_mem_nil, or_false] at hmem
+  rw [e] at hmem
+  rcases hmem with h | h | h <;>
+    · have := (List.cons.inj h).1
+      subst this
+      revert hc; decide
+
+theorem exampleCodec_laws :
+    exampleCodec.Law64 ∧ exampleCodec.Law32Via64 (fun _ => False) ∧ exampleCodec.Law32 := by
+  refine ⟨⟨fun b _ => formatUint_not_special _, fun b _ => ?_⟩,
+          ⟨fun b _ => formatUint_not_special _, fun b hb _ => ?_⟩,
+          ⟨fun b _ => formatUint_not_special _, fun b _ => ?_, fun b hb => ?_⟩⟩
+  · simp [exampleCodec, parseUint_formatUint 64 b.toNat b.isLt]
+  · simp [exampleCodec, parseUint_formatUint 64 (widen b).toNat (widen b).isLt, narrow_widen b hb]
+  · simp [exampleCodec, parseUint_formatUint 64 (widen b).toNat (widen b).isLt]
+  · simp [exampleCodec, parseUint_formatUint 64 (widen b).toNat (widen b).isLt, narrow_widen b hb]
+
 end Model.DefVal
